@@ -543,9 +543,22 @@ def option_cases(rng, pools):
 # C20: determinism workload = valid + invalid inputs
 
 
-def det_cases(rng, pools, tier):
+def det_cases(rng, pools, tier, prefixes=()):
     g = Gen(rng, pools)
     rows = []
+    # operands that are token-prefixes of other operands (as the other syntactic category): histories in which
+    # `Map < K` was seen as an expression before `Map<K, V>` is needed as a type, and the like
+    for i, (kind, text) in enumerate(prefixes):
+        cfg = str(rng.randrange(8))
+        if kind == "E":
+            rows.append(("dp%d" % i, cfg, "x |> %s ~=> f" % text))
+        else:
+            rows.append(("dp%d" % i, cfg, "x =>[] %s |> f" % text))
+    for i, t in enumerate(pools[2]):
+        rows.append(("dt%d" % i, str(rng.randrange(8)), "x =>[] %s >. len()" % t))
+        rows.append(("du%d" % i, str(rng.randrange(8)), "x <-> %s, %s, %s, %s" % (t, t, t, t)))
+    for i, e in enumerate(pools[0]):
+        rows.append(("de%d" % i, str(rng.randrange(8)), "x |> %s ?> %s" % (e, e)))
     n = 700 if tier == "quick" else 5000
     for i in range(n):
         handler = rng.choice([None, None, "map", "then", "and_then"])
